@@ -7,6 +7,9 @@ proofs : lean/PyAbel/Props/C01.lean
                                           C09.daun0_eq_abel) of every piecewise-constant source exactly, every size
            exact_projection_recovered_within  a-priori envelope: from the true projection of an L-Lipschitz source, any exact inverse T
                                           of the degree-0 forward matrix returns the samples within ‖T_i‖₁ · L · (n − ½), every size/pixel
+         lean/PyAbel/Props/C01Rbasex.lean
+           rbasex_inverse_exact           from the true line-of-sight integrals of Σ c_R b_R(ρ)(r/ρ)ⁿ (radially piecewise linear, any angular
+                                          order) the triangular solve with rBasex's P[n] returns the coefficients c_R exactly, every Rmax
          (with C03: every exact method inverts its own forward operator; with C09: the operators are Abel integrals of
           their basis functions)
 K      : the Lean operator models vs the arrays the implementation builds (methods.corr_operators)
@@ -47,6 +50,8 @@ def run(tier, prop=PROP, module=MODULE, files=FILES):
                                   "modelled and proved equal to their integrals (C09Rbasex), the image-level pipeline is oracle only"]
     ck.cov["source_fingerprint"] = source_fingerprint(files)
     ck.proofs(module)
+    if prop == "C01":
+        ck.proofs("PyAbel.Props.C01Rbasex")          # rBasex inverse recovers the coefficients of its own function space from exact projections
     if prop == "C02":
         ck.proofs("PyAbel.Props.C02Rbasex")          # rBasex forward is exact on radially piecewise-linear distributions, every order
     corr_operators(ck, tier)
